@@ -27,7 +27,7 @@ META = {
 
 HEADS = (('**kern',), ('**kern', '**text'), ('**kern', '**kern'), ('**dynam', '**kern', '**harm'))
 LAYOUTS = []
-COMMENT_PLANS = ((), ('pre',), ('pre', 'pre'), ('in',), ('post',), ('pre', 'in', 'post'), ('in', 'in2', 'post', 'post'), ('dup', 'in', 'dup2'))
+COMMENT_PLANS = ((), ('pre',), ('pre', 'pre'), ('in',), ('post',), ('pre', 'in', 'post'), ('in', 'in2', 'post', 'post'), ('dup', 'in', 'dup2'), ('eq',), ('eq', 'pre', 'post'))
 
 
 def load(tier):
@@ -71,6 +71,16 @@ def build(li, plan):
     heads, lay = LAYOUTS[li]
     rows = sp.build_rows(list(heads), lay)
     rows.insert(2, ['='] * len(rows[1]))
+    if 'eq' in plan:
+        # a line of EQUAL cells (barlines, then null tokens) directly below every operator row: sibling sub-spines hold equal tokens
+        out = []
+        for i, r in enumerate(rows):
+            out.append(r)
+            if i + 1 < len(rows) and r[0].startswith('*') and not r[0].startswith('**') and any(c in ('*^', '*v') for c in r):
+                w = len(rows[i + 1])
+                out.append(['='] * w)
+                out.append(['.'] * w)
+        rows = out
     n_in = 0
     for p in plan:
         if p == 'pre':
@@ -267,7 +277,7 @@ OBLIGATIONS = [
     Ob(id='C17.a', fn=ob_a, title='listing order: leading comments, each spine depth-first left to right, later comments; each cell once',
        shard_of=lambda layout, plan: layout, shards={'quick': 16, 'thorough': 16}, budget_s={'quick': 170, 'thorough': 1800},
        witnesses=[{'layout': 0, 'plan': 5}], min_confirmed=500, enumerated='layout selector, global-comment plan',
-       bounds={'quick': '4 header sets (1-3 spines), operator rows 2/2/1 + 12 curated deep layouts x 8 comment plans (before the header, inside, after the terminators, repeated texts)',
+       bounds={'quick': '4 header sets (1-3 spines), operator rows 2/2/1 + 12 curated deep layouts x 10 plans (comments before the header, inside, after the terminators, repeated texts; lines of equal cells below every split / join)',
                'thorough': 'operator rows 3/3/2'}, describe=_desc_a),
     Ob(id='C17.b', fn=ob_b, title='category filter == sub-sequence in the closure; unique = first occurrences; frequencies; encodings',
        shard_of=lambda d, sel, style: sel, shards={'quick': 16, 'thorough': 16}, budget_s={'quick': 170, 'thorough': 1800},
